@@ -47,6 +47,8 @@ pub enum Cmd {
     PluginCmd(String),
     Fs(String),
     Raw(String),
+    /// page through a search with the returned continuation position (client-side loop)
+    SearchPaged { r: SRef, filters: String, start_idx: usize, max_results: usize },
     /// let the server run: n polls of the client's socket
     Wait(usize),
     /// wait until the server reported that all messages were parsed (bounded)
@@ -178,6 +180,7 @@ pub fn cmd_text(c: &Cmd, file: &str, known: &[u32]) -> Option<String> {
         Cmd::PluginCmd(b) => format!("plugin_cmd {}", b).trim_end().to_string(),
         Cmd::Fs(b) => format!("fs {}", b).trim_end().to_string(),
         Cmd::Raw(s) => s.clone(),
+        Cmd::SearchPaged { r, filters, start_idx, max_results } => format!(r#"stream_search {} {{"filters":{},"start_idx":{},"max_results":{}}}"#, sref_text(r, known), filters, start_idx, max_results),
         Cmd::Wait(_) | Cmd::WaitParsed => return None,
     })
 }
@@ -265,6 +268,31 @@ pub fn run_session(s: &Session, ctx: &mut Ctx) -> Result<Transcript, Violation> 
                         }
                         // and some more loops so that streams can deliver
                         let _ = pump(&mut ws, &mut ev, 300, false, &mut last_fileinfo, &mut fileinfo_repeats);
+                    }
+                    Cmd::SearchPaged { r, filters, start_idx, max_results } => {
+                        let mut next = Some(*start_idx);
+                        let mut pages = 0;
+                        while let Some(st) = next {
+                            pages += 1;
+                            if pages > 2000 {
+                                break;
+                            }
+                            let text = cmd_text(&Cmd::SearchPaged { r: r.clone(), filters: filters.clone(), start_idx: st, max_results: *max_results }, &file_s, &known).unwrap();
+                            ev.push(Ev::Sent { cmd_no, text: text.clone() });
+                            if ws.write_message(Message::Text(text)).is_err() {
+                                break;
+                            }
+                            match pump(&mut ws, &mut ev, budget, true, &mut last_fileinfo, &mut fileinfo_repeats) {
+                                Some(reply) => {
+                                    next = reply.split_once('=').and_then(|(_, j)| serde_json::from_str::<serde_json::Value>(j).ok()).and_then(|v| v["next_search_idx"].as_u64()).map(|x| x as usize);
+                                    ev.push(Ev::Reply { cmd_no, text: reply });
+                                }
+                                None => {
+                                    ev.push(Ev::NoReply { cmd_no });
+                                    next = None;
+                                }
+                            }
+                        }
                     }
                     _ => {
                         let text = cmd_text(c, &file_s, &known).unwrap();
